@@ -63,6 +63,8 @@ type childResult struct {
 	Layer    string      `json:"layer"`
 	Held     int         `json:"held"`
 	HeapGrow int64       `json:"heap_grow"`
+	LiveGrow int64       `json:"live_grow,omitempty"` // peak growth of the live heap (after forced GC) at reads of the input
+	LiveObs  int         `json:"live_obs,omitempty"`  // number of such observations
 	Alloc    int64       `json:"alloc"`
 	Micros   int64       `json:"us"`
 	PostDump string      `json:"post_dump,omitempty"`
@@ -183,6 +185,21 @@ type sampledReader struct {
 	off int
 	s   *sampler
 	smp []metrics.Sample
+
+	// live mode: before handing out the next (small) piece of input, force a
+	// complete collection and record what is still reachable. Whatever the
+	// loader keeps alive across blocks shows up here; garbage does not, so the
+	// collector's timing has no influence on the figure.
+	live     bool
+	liveBase int64
+	livePeak int64
+	liveObs  int
+}
+
+func liveHeap(smp []metrics.Sample) int64 {
+	runtime.GC()
+	metrics.Read(smp)
+	return int64(smp[0].Value.Uint64())
 }
 
 func (r *sampledReader) Read(p []byte) (int, error) {
@@ -190,6 +207,15 @@ func (r *sampledReader) Read(p []byte) (int, error) {
 		in, _ := heapNow(r.smp)
 		if in > r.s.peak.Load() {
 			r.s.peak.Store(in)
+		}
+	}
+	if r.live {
+		if g := liveHeap(r.smp) - r.liveBase; g > r.livePeak {
+			r.livePeak = g
+		}
+		r.liveObs++
+		if len(p) > 1024 {
+			p = p[:1024]
 		}
 	}
 	if r.off >= len(r.b) {
@@ -452,11 +478,22 @@ func (cs *childState) damageCase(r *childResult, c damageCase, s *sampler) {
 	b := newBox(60, "")
 	defer b.close()
 	smp := append([]metrics.Sample(nil), heapSamples...)
-	code, msg := b.loadFrom(&sampledReader{b: c.Input, s: s, smp: smp})
+	rd := &sampledReader{b: c.Input, s: s, smp: smp}
+	if c.LiveLimit > 0 {
+		rd.live = true
+		rd.liveBase = liveHeap(smp) // the input itself and the empty cache are part of the base
+	}
+	code, msg := b.loadFrom(rd)
 	if in, _ := heapNow(smp); in > s.peak.Load() { // the moment the load returns
 		s.peak.Store(in)
 	}
 	r.Code, r.Layer = code, layerOf(code, msg)
+	if rd.live {
+		r.LiveGrow, r.LiveObs = rd.livePeak, rd.liveObs
+		if rd.livePeak > c.LiveLimit {
+			r.Viols = append(r.Viols, childViol{Key: "retains-stream-while-loading", What: fmt.Sprintf("while loading a %d-byte input (%s) the loader kept %d MiB of heap alive (measured after a forced collection at each of %d reads of the input; limit %d MiB = %d x the 1 MiB block limit): memory grows with the decompressed size of the stream instead of the size of one block", len(c.Input), c.Desc, rd.livePeak>>20, rd.liveObs, c.LiveLimit>>20, c.LiveLimit>>20)})
+		}
+	}
 	// the cache must remain usable: its own dump, and queries for what it admitted
 	dcode, own := b.dump()
 	if dcode != 200 {
